@@ -44,7 +44,7 @@ def model_randn_c(seed, rows, cols):
 def gen_dims(rng, K, extK):
     Nr = [rng.randint(1, 4) for _ in range(K)]
     Nt = [rng.randint(1, 4) for _ in range(K)]
-    NtE = [rng.randint(1, 2) for _ in range(extK)]
+    NtE = [rng.choice([1, 1, 2, 2, 0]) for _ in range(extK)]       # a source may be switched off (no antennas): the end of an interference-rank sweep
     return Nr, Nt, NtE
 
 
